@@ -149,6 +149,13 @@ Proof.
   unfold gen_add_td, add_td, td_days, td_seconds, td_microseconds. unf_obj. via_fix.
 Qed.
 
+(* normalized() read on integer fields: int(), round(x, k), round(x) of an integer are the integer *)
+Theorem gen_normalized_correct : forall o, gen_normalized o = GOk (obj_of_rd (normalized (rd_of_obj o))).
+Proof.
+  intros [y mo dd l h mi s us ay am ad ah ami asec aus w ht]. unfold gen_normalized, normalized. cbv zeta.
+  unf_obj. via_fix.
+Qed.
+
 (* ---------------------------------------------------------------- __bool__, __eq__, __hash__ *)
 Theorem gen_bool_correct : forall o, gen_bool o = GOk (rd_bool (rd_of_obj o)).
 Proof.
@@ -209,6 +216,18 @@ Qed.
 
 Theorem gen_wd_eq_total : forall a b, exists r, gen_wd_eq a b = GOk r.
 Proof. intros a b. unfold gen_wd_eq. destruct (_ || _); eexists; reflexivity. Qed.
+
+Theorem gen_wd_init_correct : forall w k n, gen_wd_init w k n = GOk (k, n).
+Proof. intros [k0 n0] k n. reflexivity. Qed.
+
+(* MO(n): the same weekday with that n (the very object when n is unchanged) *)
+Theorem gen_wd_call_correct : forall w n, gen_wd_call w n = GOk (fst w, n).
+Proof.
+  intros [k n0] n. unfold gen_wd_call. cbn [fst snd].
+  destruct (ozeqb n n0) eqn:E; [| reflexivity].
+  destruct n as [v|], n0 as [v0|]; cbn [ozeqb] in E; try discriminate; try reflexivity.
+  apply Z.eqb_eq in E. subst. reflexivity.
+Qed.
 
 Theorem gen_wd_hash_correct : forall a, gen_wd_hash a = GOk a.
 Proof. intros [k n]. reflexivity. Qed.
